@@ -813,3 +813,43 @@ T("C03", "twin-exponentiation-even-first", (OPS, """    if power % 2 == 1:
         return half * half
 
     return _efficient_exponentiation(pauli_rep, power - 1) * pauli_rep"""))
+
+# ----------------------------------------------------------------------------- C04
+UTL = "utils.py"
+PAR = "measurements/parities.py"
+SPT = "operators/_openfermion_utils/sparse_tools.py"
+OUT = "operators/_utils.py"
+
+B("C04", "b2t-unreversed-only", (UTL, "    measurement = tuple(int(bit) for bit in bitstring[::-1])", "    measurement = tuple(int(bit) for bit in bitstring)"), rule="C04-D1")
+B("C04", "outcome-keys-unreversed-only", (WF, '            format(i, "0" + str(self.n_qubits) + "b")[::-1] for i in range(len(self))', '            format(i, "0" + str(self.n_qubits) + "b") for i in range(len(self))'), rule="C04-D1")
+B("C04", "few-sample-branch-skips-conversion", (WF, "        string_samples = rng.choice(a=outcome_strings, size=n_samples, p=probabilities)\n        samples = convert_bitstrings_to_tuples(string_samples)", "        indices = rng.choice(len(outcome_strings), size=n_samples, p=probabilities)\n        samples = [tuple(map(int, outcome_strings[index])) for index in indices]"), rule="C04-D1")
+B("C04", "many-sample-branch-extra-reversal", (WF, "        outcome_tuples += convert_bitstrings_to_tuples(outcome_strings)", "        outcome_tuples += [t[::-1] for t in convert_bitstrings_to_tuples(outcome_strings)]"), rule="C04-D1")
+B("C04", "candidates-reordered", (WF, "        string_samples = rng.choice(a=outcome_strings, size=n_samples, p=probabilities)", "        string_samples = rng.choice(a=outcome_strings[::-1], size=n_samples, p=probabilities)"), rule="C04-D1")
+B("C04", "uniform-sampling", (WF, "        string_samples = rng.choice(a=outcome_strings, size=n_samples, p=probabilities)", "        string_samples = rng.choice(a=outcome_strings, size=n_samples)"), rule="C04-D1")
+B("C04", "outcome-keys-descending-index", (WF, '"b")[::-1] for i in range(len(self))', '"b")[::-1] for i in reversed(range(len(self)))'), rule="C04-D1")
+B("C04", "t2b-reversed", (UTL, '    return "".join(map(str, tup))', '    return "".join(map(str, tup[::-1]))'), rule="C04-D2")
+B("C04", "add-counts-reversed", (MEAS, "            for bitvalue in bitstring:\n                measurement.append(int(bitvalue))", "            for bitvalue in reversed(bitstring):\n                measurement.append(int(bitvalue))"), rule="C04-D2")
+B("C04", "bit-matrix-column-major", (MEAS, "    return bitstring_1d_array.astype(int).reshape(-1, n_qubits)", "    return bitstring_1d_array.astype(int).reshape(n_qubits, -1).T"), rule="C04-D2")
+B("C04", "parity-columns-mirrored", (PAR, "    bitstring_subset = bitstrings_vector[:, np.fromiter(marked_qubits, dtype=int)]", "    bitstring_subset = bitstrings_vector[:, -1 - np.fromiter(marked_qubits, dtype=int)]"), rule="C04-D2")
+B("C04", "frequencies-sorted-separately", (MEAS, "        np.fromiter(bitstring_frequencies.values(), dtype=int)\n        * parity", "        np.fromiter(sorted(bitstring_frequencies.values()), dtype=int)\n        * parity"), rule="C04-D2")
+B("C04", "exact-distribution-digits-descending", (DIST, "    keys = product([0, 1], repeat=int(np.log2(len(prob_distribution))))", "    keys = product([1, 0], repeat=int(np.log2(len(prob_distribution))))"), rule="C04-D3")
+B("C04", "exact-distribution-key-reversed", (DIST, "        key: float(value) for key, value in zip(keys, prob_distribution)", "        key[::-1]: float(value) for key, value in zip(keys, prob_distribution)"), rule="C04-D3")
+B("C04", "string-keys-reversed", (DIST, 'res_dict[tuple(map(int, key if "," not in key else key.split(",")))] = value', 'res_dict[tuple(map(int, key[::-1] if "," not in key else key.split(",")))] = value'), rule="C04-D3")
+B("C04", "sparse-descending-qubits", (SPT, "        for qubit_num, operator_str in sorted(qubit_term.operations):", "        for qubit_num, operator_str in sorted(qubit_term.operations, reverse=True):"), rule="C04-D4")
+B("C04", "sparse-kron-swapped", (SPT, '    return scipy.sparse.kron(operator_1, operator_2, "csc")', '    return scipy.sparse.kron(operator_2, operator_1, "csc")'), rule="C04-D4")
+B("C04", "expectation-reverses-by-default", (OUT, "    reverse_operator: bool = False,\n) -> complex:", "    reverse_operator: bool = True,\n) -> complex:"), rule="C04-D4")
+B("C04", "sympy-dense-vector-lsb-index", (UNI, """    basis = [sympy.Matrix([1, 0]), sympy.Matrix([0, 1])]
+    return sympy.kronecker_product(*[basis[bit] for bit in state])""", """    vector = sympy.zeros(2 ** len(state), 1)
+    vector[sum(bit << position for position, bit in enumerate(state))] = 1
+    return vector"""), rule="C04-D5")
+B("C04", "numpy-dense-vector-reversed", (UNI, "    return reduce(np.kron, (basis[bit] for bit in state))", "    return reduce(np.kron, (basis[bit] for bit in reversed(state)))"), rule="C04-D5")
+B("C04", "basis-bitstring-lsb-first", (UNI, "    return [int(char) for char in bin(i)[2:].zfill(num_qubits)]", "    return [int(char) for char in bin(i)[2:].zfill(num_qubits)[::-1]]"), rule="C04-D5")
+B("C04", "simulator-flips-state-for-expectation", (SIM, "        return get_expectation_value(operator, wavefunction).real", "        return get_expectation_value(operator, wavefunction, True).real"), rule="C04-D6")
+B("C04", "probabilities-reversed", (WF, "        return np.abs(self.amplitudes) ** 2", "        return np.abs(self.amplitudes[::-1]) ** 2"), rule="C04-D")
+T("C04", "twin-remove-both-reversals", (UTL, "    measurement = tuple(int(bit) for bit in bitstring[::-1])", "    measurement = tuple(int(bit) for bit in bitstring)"), (WF, '            format(i, "0" + str(self.n_qubits) + "b")[::-1] for i in range(len(self))', '            format(i, "0" + str(self.n_qubits) + "b") for i in range(len(self))'))
+T("C04", "twin-sympy-dense-vector-msb-index", (UNI, """    basis = [sympy.Matrix([1, 0]), sympy.Matrix([0, 1])]
+    return sympy.kronecker_product(*[basis[bit] for bit in state])""", """    vector = sympy.zeros(2 ** len(state), 1)
+    vector[sum(bit << (len(state) - 1 - position) for position, bit in enumerate(state))] = 1
+    return vector"""))
+T("C04", "twin-map-conversion", (UTL, "    measurements = [bitstring_to_tuple(bitstring) for bitstring in bitstrings]", "    measurements = list(map(bitstring_to_tuple, bitstrings))"))
+T("C04", "twin-index-draw-with-conversion", (WF, "        string_samples = rng.choice(a=outcome_strings, size=n_samples, p=probabilities)\n        samples = convert_bitstrings_to_tuples(string_samples)", "        indices = rng.choice(len(outcome_strings), size=n_samples, p=probabilities)\n        samples = [bitstring_to_tuple(outcome_strings[index]) for index in indices]"))
